@@ -710,6 +710,10 @@ class InstructionUtility:
         if op in ('CALL', 'DJNZ', 'JP', 'JR'):
             return _replace_nums(operation, hex4fmt)
 
+        if op == 'OUT' and [e.upper() for e in elements[1:]] == ['(C)', '0']:
+            # The 0 in 'OUT (C),0' is part of the mnemonic, not a number
+            return operation
+
         if op in ('AND', 'OR', 'XOR', 'SUB', 'CP', 'IN', 'OUT', 'ADD', 'ADC', 'SBC', 'RST'):
             return _replace_nums(operation, hex2fmt)
 
